@@ -162,14 +162,51 @@ pub fn act_strategy(p: &GenParams, active: bool) -> BoxedStrategy<EpAct> {
     (prop_oneof![6 => Just(true), 1 => Just(false)], sends, prop_oneof![3 => Just(0u8), 3 => Just(1u8), 1 => 2u8..4]).prop_map(|(step, sends, flushes)| EpAct { step, sends, flushes }).boxed()
 }
 
+/// Tick spacing relative to the scenario's base period: applications step at a roughly regular
+/// cadence, with jitter, occasional back-to-back steps (dt = 0) and occasional long pauses.
+#[derive(Clone, Debug)]
+pub enum DtSel {
+    Regular(u16),
+    Zero,
+    Sub(u16),
+    Pause(u16),
+}
+
+fn dtsel_strategy(irregular: bool) -> BoxedStrategy<DtSel> {
+    if irregular {
+        prop_oneof![6 => (500u16..1500).prop_map(DtSel::Regular), 2 => Just(DtSel::Zero), 2 => (1u16..500).prop_map(DtSel::Sub), 2 => (2u16..60).prop_map(DtSel::Pause)].boxed()
+    } else {
+        prop_oneof![30 => (700u16..1300).prop_map(DtSel::Regular), 1 => Just(DtSel::Zero), 1 => (1u16..500).prop_map(DtSel::Sub), 1 => (2u16..40).prop_map(DtSel::Pause)].boxed()
+    }
+}
+
+pub fn resolve_dt(period_us: u64, sel: &DtSel) -> u64 {
+    match sel {
+        DtSel::Regular(permille) => period_us * (*permille as u64) / 1000,
+        DtSel::Zero => 0,
+        DtSel::Sub(permille) => period_us * (*permille as u64) / 1000,
+        DtSel::Pause(mult) => (period_us * (*mult as u64)).min(5_000_000),
+    }
+}
+
 pub fn tick_strategy(p: &GenParams) -> BoxedStrategy<Tick> {
     let dt = prop_oneof![2 => Just(0u64), 2 => 1u64..1000, 12 => 1_000u64..20_000, 4 => 20_000u64..100_000, 2 => 100_000u64..1_000_000, 1 => 1_000_000u64..3_000_000];
     (dt, act_strategy(p, true), act_strategy(p, p.both_directions)).prop_map(|(dt_us, a, b)| Tick { dt_us, acts: [a, b] }).boxed()
 }
 
+fn ticks_strategy(p: &GenParams) -> BoxedStrategy<Vec<Tick>> {
+    let period = prop_oneof![2 => Just(1_000u64), 3 => Just(5_000u64), 4 => Just(10_000u64), 4 => Just(16_000u64), 4 => Just(30_000u64), 2 => Just(60_000u64), 1 => Just(150_000u64), 1 => Just(500_000u64)];
+    let regular = (period.clone(), proptest::collection::vec((dtsel_strategy(false), act_strategy(p, true), act_strategy(p, p.both_directions)), 1..=p.max_ticks.max(1)))
+        .prop_map(|(period, v)| v.into_iter().map(|(sel, a, b)| Tick { dt_us: resolve_dt(period, &sel), acts: [a, b] }).collect::<Vec<Tick>>());
+    let irregular = (period, proptest::collection::vec((dtsel_strategy(true), act_strategy(p, true), act_strategy(p, p.both_directions)), 1..=p.max_ticks.max(1)))
+        .prop_map(|(period, v)| v.into_iter().map(|(sel, a, b)| Tick { dt_us: resolve_dt(period, &sel), acts: [a, b] }).collect::<Vec<Tick>>());
+    let wild = proptest::collection::vec(tick_strategy(p), 1..=p.max_ticks.max(1));
+    prop_oneof![6 => regular, 2 => irregular, 1 => wild].boxed()
+}
+
 pub fn scenario_strategy(p: &GenParams) -> BoxedStrategy<PairScenario> {
     let tail = if p.tail {
-        (prop_oneof![Just(1_000u32), Just(10_000u32), Just(30_000u32), Just(100_000u32)], Just(0u64)).prop_map(|(step_us, _)| Some(Tail { step_us, max_us: 0 })).boxed()
+        prop_oneof![Just(1_000u32), Just(10_000u32), Just(16_000u32), Just(30_000u32), Just(100_000u32)].prop_map(|step_us| Some(Tail { step_us, max_us: 0 })).boxed()
     } else {
         Just(None).boxed()
     };
@@ -179,7 +216,7 @@ pub fn scenario_strategy(p: &GenParams) -> BoxedStrategy<PairScenario> {
         any::<u64>(),
         (0u8..64, 0u8..4),
         (link_strategy(p), link_strategy(p)),
-        proptest::collection::vec(tick_strategy(p), 1..=p.max_ticks.max(1)),
+        ticks_strategy(p),
         tail,
     )
         .prop_map(|((d0, d1), keepalive_ms, seed, (zero_ch, zero_mode), (l0, l1), ticks, tail)| {
